@@ -414,14 +414,70 @@ func runC04Impatient(seed int64) (*c04Case, error) {
 	return c, nil
 }
 
+// runC04AfterDeadline: one side sends with a context that has a short deadline (the send succeeds at once); the
+// deadline then passes while the session is idle; then the other side sends: everything must still arrive.
+func runC04AfterDeadline(transport string) (*c04Case, error) {
+	p, err := EstablishedPair(transport, 4)
+	if err != nil {
+		return nil, err
+	}
+	defer p.Close()
+	work := [][]c04Item{{{Kind: 0, Size: 10}, {Kind: 1, Size: 10}, {Kind: 0, Size: 300}, {Kind: 2, Size: 10}, {Kind: 3, Size: 5}}}
+	c := &c04Case{Transport: transport, Buffer: 4, Direction: "s2c", Work: work, Consumer: "after-deadline"}
+	var mu sync.Mutex
+	stop := make(chan struct{})
+	go consume(p.Client, work, 0, &c.Delivered, &mu, stop)
+	// drain what the client sends
+	go func() {
+		for {
+			select {
+			case <-stop:
+				return
+			case <-p.Server.MsgChan():
+			}
+		}
+	}()
+	sctx, cancel := context.WithTimeout(context.Background(), 60*time.Millisecond)
+	if err := p.Client.SendMessage(sctx, textMessage("pre", "x")); err != nil {
+		c.Note = "the first send failed: " + err.Error()
+	}
+	cancel()
+	time.Sleep(150 * time.Millisecond)
+	for seq, it := range work[0] {
+		ctx, cc := context.WithTimeout(context.Background(), 5*time.Second)
+		if err := sendAny(ctx, p.Server, c04Envelope(0, seq, it)); err != nil {
+			c.Note += " send failed: " + err.Error()
+		}
+		cc()
+		time.Sleep(20 * time.Millisecond)
+	}
+	waitUntil(3*time.Second*slack, func() bool {
+		mu.Lock()
+		defer mu.Unlock()
+		return len(c.Delivered[0])+len(c.Delivered[1])+len(c.Delivered[2])+len(c.Delivered[3]) >= len(work[0])
+	})
+	close(stop)
+	mu.Lock()
+	defer mu.Unlock()
+	cp := *c
+	return &cp, nil
+}
+
 func runC04(env *Env) error {
 	env.Header = "From Coq Require Import List.\nImport ListNotations.\nFrom Lime Require Import Base.Res Chan.Pipeline Corr.C04."
 	env.ShardSize = 40
-	env.Rule = "real established pairs over in-process, TCP over an injected connection (Write calls monitored for overlap and for carrying exactly one envelope), TCP and TCP+TLS over loopback, WebSocket and secure WebSocket; PRNG workloads (4 kinds, payloads 0 B to 40 kB (quick) / 200 kB (thorough)), both directions at once, 1-8 sender goroutines per side, channel/transport buffers 0, 1, 2, 64, consumer delays 0-300 us, the receiving side reading its four streams, or running an EnvelopeMux dispatch loop, or a dispatch loop that is cancelled and started again every few hundred microseconds; plus runs over a connection with 8 kB buffers and a slow reader where, next to two patient senders of large envelopes, four senders use contexts that expire after 0.2-2 ms (while waiting for their turn or while writing): exactly the envelopes whose send reported success must arrive, and writes must never overlap. Non-trivial: at least two senders or a buffer of at most one slot. Distinct by (transport, buffer, workload)."
+	env.Rule = "real established pairs over in-process, TCP over an injected connection (Write calls monitored for overlap and for carrying exactly one envelope), TCP and TCP+TLS over loopback, WebSocket and secure WebSocket; PRNG workloads (4 kinds, payloads 0 B to 40 kB (quick) / 200 kB (thorough)), both directions at once, 1-8 sender goroutines per side, channel/transport buffers 0, 1, 2, 64, consumer delays 0-300 us, the receiving side reading its four streams, or running an EnvelopeMux dispatch loop, or a dispatch loop that is cancelled and started again every few hundred microseconds; plus runs over a connection with 8 kB buffers and a slow reader where, next to two patient senders of large envelopes, four senders use contexts that expire after 0.2-2 ms (while waiting for their turn or while writing): exactly the envelopes whose send reported success must arrive, and writes must never overlap; and sessions left idle past the deadline of an earlier, successful send before the other side sends. Non-trivial: at least two senders or a buffer of at most one slot. Distinct by (transport, buffer, workload)."
 	rng := env.Rng
 	var rc c04Case
 	if ok, err := env.ReplayDesc(&rc); err != nil {
 		return err
+	} else if ok && rc.Consumer == "after-deadline" {
+		c, err := runC04AfterDeadline(rc.Transport)
+		if err != nil {
+			return err
+		}
+		env.Add(c.Coq(), c)
+		return nil
 	} else if ok && rc.Impatient {
 		for i := int64(0); i < 20; i++ {
 			c, err := runC04Impatient(i)
@@ -476,6 +532,15 @@ func runC04(env *Env) error {
 		if c.Note != "" {
 			env.Count("note=" + strings.TrimSpace(c.Note))
 		}
+		env.NonTrivial(c.Coq())
+	}
+	for _, tr := range []string{"inproc", "mem", "tcp", "memtls", "ws", "wss"} {
+		c, err := runC04AfterDeadline(tr)
+		if err != nil {
+			return fmt.Errorf("after-deadline/%s: %w", tr, err)
+		}
+		env.Add(c.Coq(), c)
+		env.Count("idle-past-the-deadline-of-an-earlier-send")
 		env.NonTrivial(c.Coq())
 	}
 	runs := env.Pick(26, 160)
